@@ -229,8 +229,17 @@ class Walker:
                     if l in fr.locals:
                         pre[l] = fr.locals[l]
                     fr.locals[l] = ("havoc", self._site_str(key), l)
-                if self._loop_writes_heap(body, bb):
-                    st.heap = {}
+                for pj in self._loop_heap_places(body, bb):
+                    try:
+                        pl = self._place(st, fr, pj)
+                    except Exception:
+                        st.heap = {}
+                        break
+                    if pl[1][0] != "local":
+                        for hk in list(st.heap.keys()):
+                            r2, p2 = hk
+                            if r2 == pl[1] and (p2[:len(pl[2])] == pl[2] or pl[2][:len(p2)] == p2):
+                                del st.heap[hk]
                 st.trace.append(("loop", self._site_str(key), pre, body.defp))
             blk = body.blocks[bb]
             for s in blk["stmts"]:
@@ -309,9 +318,26 @@ class Walker:
         self._havoc_cache[key] = (sorted(hs), heap)
         return self._havoc_cache[key][0]
 
-    def _loop_writes_heap(self, body, header):
-        self._havoc_set(body, header)
-        return self._havoc_cache[(body.defp, header)][1]
+    def _loop_heap_places(self, body, header):
+        """MIR places (json) written or mutably borrowed through a deref inside the loop"""
+        key = ("hp", body.defp, header)
+        if key in self._havoc_cache:
+            return self._havoc_cache[key]
+        out = []
+        for b in body.loops()[header]:
+            blk = body.blocks[b]
+            for s in blk["stmts"]:
+                if s["k"] in ("assign", "setdiscr"):
+                    if any(p["k"] == "deref" for p in s["place"]["p"]):
+                        out.append(s["place"])
+                    if s["k"] == "assign" and s["rv"]["k"] == "ref" and s["rv"]["mut"]:
+                        if any(p["k"] == "deref" for p in s["rv"]["place"]["p"]):
+                            out.append(s["rv"]["place"])
+            t = blk["term"]
+            if t["k"] == "call" and any(p["k"] == "deref" for p in t["dest"]["p"]):
+                out.append(t["dest"])
+        self._havoc_cache[key] = out
+        return out
 
     # ------------------------------------------------------------------ places
     def _site(self, fr, bb):
